@@ -54,6 +54,7 @@ def build_simsouffle():
 
 
 SIM_EXE = None
+SECOND_BUDGET = 20000000000  # steps; the first budget is simrt's default (2e9)
 
 
 def held_sizes(w, rels):
@@ -232,8 +233,15 @@ def basic_failures(ref, res):
     """Failures common to every whole-program oracle: crash, verdict, hang."""
     f = []
     st = res["stats"]
+    # A run that exceeds the step budget has already been repeated with a ten times larger budget by the caller (see
+    # Explorer.run_workload): only a run that exceeds that one as well is a violation.  A wall-clock timeout counts as a
+    # violation only when the sequential reference run of the same program was short (otherwise it is inconclusive).
+    ref_wall = (ref or {}).get("wall", 0) if ref else 0
     if res["rc"] == -999:
-        f.append(("hang", "no result within the wall-clock limit"))
+        if (ref and ref_wall * 300 > 600) or res.get("second_chance"):
+            f.append(("inconclusive:hang", "no result within the wall-clock limit; the reference run took %.1f s" % ref_wall))
+        else:
+            f.append(("hang", "no result within the wall-clock limit"))
     elif st.get("verdict"):
         f.append(({1: "deadlock", 2: "livelock", 3: "budget"}.get(st["verdict"], "verdict"), st.get("verdict_msg", "")))
     elif res["rc"] != 0:
@@ -274,6 +282,8 @@ class Explorer:
         self.failures = []
         self.workloads_done = 0
         self.invalid_workloads = []
+        self.second_chances = 0
+        self.inconclusive = []  # runs that hit the step / wall-clock limit on a program whose reference run is itself long
         self.lock = threading.Lock()
         self.samples = []
         self.par_kinds = {}
@@ -293,7 +303,23 @@ class Explorer:
             if time.time() > deadline:
                 break
             res = run_case(self.exe, c, keep=True)
+            if res["stats"].get("verdict") == 3:
+                # step budget exceeded: long but legitimate runs exist (plain-access sampling at period 1 together with a coarse
+                # simulated clock keeps the profiler's timer thread busy); repeat once with ten times the budget
+                cleanup(res)
+                c2 = Case(c.w, c.mode, c.n, c.seed, c.faults, c.extra_args, c.strategy, dict(c.env, VERIF_SIM_BUDGET=str(SECOND_BUDGET)), c.binary, c.tick_ns)
+                res = run_case(self.exe, c2, keep=True, timeout=1500)
+                res["second_chance"] = True
+                with self.lock:
+                    self.second_chances += 1
             fails = basic_failures(ref, res)
+            inconclusive = bool(fails) and all(x[0].startswith("inconclusive") for x in fails)
+            if inconclusive:
+                with self.lock:
+                    self.inconclusive.append((c.key(), fails[0][0]))
+                cleanup(res)
+                n += 1
+                continue
             if not fails:
                 try:
                     fails = self.oracle(w, ref, res, c)
@@ -382,6 +408,9 @@ class Explorer:
             "samples": self.samples or [{"note": "no run with a parallel region"}],
             "workloads": self.workloads_done,
             "workloads_rejected_by_reference_run": len(self.invalid_workloads),
+            "runs_inconclusive_too_long": len(self.inconclusive),
+            "runs_repeated_with_larger_step_budget": self.second_chances,
+            "inconclusive_examples": [list(x) for x in self.inconclusive[:3]],
             "rejected_examples": [list(map(str, x)) for x in self.invalid_workloads[:3]],
             "runs_per_hour": int(len(rs) / max(wall, 1e-6) * 3600),
             "schedule_steps_total": sum(r["steps"] for r in rs),
@@ -409,6 +438,12 @@ class Explorer:
 def classify(w, exe, case, oracle, ref_case_fn, record=None, replay=None):
     ref = run_case(exe, ref_case_fn(w), timeout=300)
     res = run_case(exe, case, keep=True, record=record, replay=replay)
+    if res["stats"].get("verdict") == 3:
+        cleanup(res)
+        c2 = Case(case.w, case.mode, case.n, case.seed, case.faults, case.extra_args, case.strategy, dict(case.env, VERIF_SIM_BUDGET=str(SECOND_BUDGET)),
+                  case.binary, case.tick_ns)
+        res = run_case(exe, c2, keep=True, record=record, replay=replay, timeout=1500)
+        res["second_chance"] = True
     fails = basic_failures(ref, res)
     if not fails and ref["rc"] == 0:
         try:
